@@ -23,7 +23,8 @@ def symptoms_of(r: dict) -> list[tuple[str, str, dict]]:
         if r["exc_type"] == "StepBudgetExceeded":
             out.append(("run", "non-termination:step-budget", {"exc": r["exc"]}))
         else:
-            out.append(("run", f"exception:{r['exc_type']}",
+            from .present import site_of
+            out.append(("run", "exception:" + site_of(r["exc_type"], r.get("where")),
                         {"exc": r.get("exc"), "where": r.get("where")}))
     else:
         j = r["judge"]
